@@ -1,5 +1,6 @@
 from __future__ import annotations
 
+import weakref
 from collections import Counter
 from itertools import product
 from math import ceil
@@ -221,8 +222,10 @@ class Jumps:
 
         max_steps = ceil(1.0 / (attempt_freq * time_step))
 
+        # The result is cached: hand it a weak proxy, otherwise the cache
+        # entry would keep `self` (and its transitions/trajectories) alive
         return Collective(
-            jumps=self,
+            jumps=weakref.proxy(self),
             sites=sites,
             lattice=trajectory.get_lattice(),
             max_steps=max_steps,
